@@ -7,6 +7,7 @@ package main
 
 import (
 	"fmt"
+	"strings"
 
 	"verif/mc"
 
@@ -121,4 +122,46 @@ func runHintedQR() {
 		}
 	}
 	runJobs("QR with further writer hints next to MARGIN (ERROR_CORRECTION typed and as string, QR_VERSION, QR_MASK_PATTERN, CHARACTER_SET, GS1_FORMAT, all together as strings) x margins x 6 requested sizes", jobs)
+}
+
+// runHugeSymbols: symbols of more than a million modules (the Codabar writer has no length limit; the
+// other 1-D writers stop at 80 characters). Module size and padding are integer quotients of the requested width and the symbol's
+// width; computed through floating point they go wrong only when the two numbers are of that
+// magnitude and the request misses a multiple by one pixel. Requests: k times the natural width
+// minus one, exactly, plus one (k = 1, 2, 3), height 1, margins {10 (default), 0}.
+func runHugeSymbols() {
+	type hs struct {
+		sp      onedSpec
+		content string
+	}
+	body := strings.Repeat("1234567890", 10003)
+	huge := []hs{
+		{onedSpecs[8], "A" + body + "B"},                // Codabar: about 1.1 million modules
+		{onedSpecs[8], "C" + body + body[:50001] + "D"}, // about 1.65 million modules
+	}
+	var jobs []job
+	for _, h := range huge {
+		sp := h.sp
+		sp.contents = [2]string{h.content, h.content}
+		sp.name = sp.name + "-huge"
+		sp.modules = 0
+		s := onedSymbol(sp, 0)
+		if s == nil {
+			continue
+		}
+		for _, m := range []int{defaultMargin, 0} {
+			natW, _ := s.natural(m)
+			var reqs []pt
+			for k := 1; k <= 3; k++ {
+				for d := -1; d <= 1; d++ {
+					reqs = append(reqs, pt{k*natW + d, 1})
+				}
+			}
+			if chk.Quick() {
+				reqs = reqs[:6]
+			}
+			jobs = append(jobs, job{s, m, reqs})
+		}
+	}
+	runJobs("huge 1-D symbols (Codabar with 100 030 and 150 031 digits: 1.1 and 1.65 million modules): requested widths k x natural width -1, +0, +1 (k = 1..3; quick: k <= 2), height 1, margins {default, 0}", jobs)
 }
